@@ -75,6 +75,9 @@ def scenarios(nmax, bmax, wmax):
                         # .items() through a catching prefetch
                         out.append(cs.make(entry, n, b, w, faults=fp, catch=catch,
                                            key=True))
+        if entry in ('stp', 'lpm', 'pf1', 'parmap') and n == 2:
+            for kind in KINDS:
+                out.append(cs.make(entry, n, b, w, faults={'iter': kind}))
         # consumer shutdown racing a failure
         if n >= 2:
             out.append(cs.make(entry, n, b, w, faults={'fn': {str(n - 1): 'user'}},
